@@ -278,8 +278,8 @@ class LowerP:
         if not (it[0] == "binop" and it[1] == ".."): raise Unsupported("for over " + show(it))
         if self.carried(blk, env): raise Unsupported("for loop assigns an outer variable")
         def kn(e1, hi):
-            body = self.block(blk, self.with_loop(e1, lambda e2: "next_"), lambda e2, v: "next_")
-            return f"PAct.forN {hi.tm} (fun next_ => {body}) ({k(e1, V('unit', '()'))})"
+            body = self.block(blk, self.with_loop(e1, lambda e2: "next_ ()"), lambda e2, v: "next_ ()")
+            return f"PAct.forN {hi.tm} (fun next_ => {body}) (fun _ => {k(e1, V('unit', '()'))})"
         return self.expr(it[3], env, kn)
 
     def loop(self, e, env, k):
